@@ -51,7 +51,7 @@ def tokenize(s):
 
 
 class _P:
-    """recursive descent for:  band > eq > rel > shift > add > unary(cast) > primary   (C precedence, lowest first)"""
+    """recursive descent for:  lor > land > band > eq > rel > shift > add > unary(cast) > primary   (C precedence, lowest first)"""
 
     def __init__(self, toks, text):
         self.t, self.i, self.text = toks, 0, text
@@ -67,6 +67,20 @@ class _P:
         return tok
 
     def expr(self):
+        a = self.land()
+        while self.peek() == "||":
+            self.take()
+            a = ("lor", a, self.land())
+        return a
+
+    def land(self):
+        a = self.band()
+        while self.peek() == "&&":
+            self.take()
+            a = ("land", a, self.band())
+        return a
+
+    def band(self):
         a = self.equality()
         while self.peek() == "&":
             self.take()
@@ -151,7 +165,7 @@ def c_expr(a):
         return "%d" % a[1]
     if k == "scast8":
         return "(signed char)(%s)" % c_expr(a[1])
-    op = {"band": "&", "shr": ">>", "add": "+", "sub": "-", "eq": "==", "gt": ">", "lt": "<"}[k]
+    op = {"band": "&", "shr": ">>", "add": "+", "sub": "-", "eq": "==", "gt": ">", "lt": "<", "lor": "||", "land": "&&"}[k]
     return "(%s %s %s)" % (c_expr(a[1]), op, c_expr(a[2]))
 
 
@@ -237,7 +251,82 @@ def extract(tree):
                      (r"if\s*\(\s*\(\s*status\s*!=\s*0\s*\)\s*&&\s*\(\s*proc->flags\s*&\s*JANET_PROC_ERROR_NONZERO\s*\)\s*\)", ":x raises on non-zero status")):
         if not re.search(rx, cb):
             raise ExtractError("janet_proc_wait_cb: expected statement not found (%s)" % what)
+    facts.update(spawn_facts(src))
+    make_pipe_facts(tree)
     return facts
+
+
+def _need(body, rx, what):
+    if not re.search(rx, body, re.S):
+        raise ExtractError("os.c: expected statement not found (%s): /%s/" % (what, rx))
+
+
+def spawn_facts(src):
+    """shape of the descriptor plumbing of os_execute_impl / make_pipes / os_proc_wait_impl / os_proc_close that
+    Proc/Spawn.lean mirrors; `movesStdSources` = the src_handles loop (a3cd080) is present"""
+    b = _body(src, r"static\s+Janet\s+os_execute_impl\s*\([^)]*\)\s*\{", "os_execute_impl")
+    posix = b[b.index("posix_spawn_file_actions_init"):]
+    f = {}
+    moves = re.search(r"JanetHandle\s+src_handles\s*\[\s*3\s*\]\s*=\s*\{\s*new_in\s*,\s*new_out\s*,\s*new_err\s*\}", b) is not None
+    if moves:
+        _need(b, r"if\s*\(\s*src_handles\[i\]\s*<\s*0\s*\|\|\s*src_handles\[i\]\s*>\s*2\s*\|\|\s*src_handles\[i\]\s*==\s*i\s*\)\s*continue\s*;", "src_handles loop: only 0..2, not the own target")
+        _need(b, r"tmp_handles\[i\]\s*=\s*fcntl\s*\(\s*src_handles\[i\]\s*,\s*F_DUPFD\s*,\s*3\s*\)\s*;", "duplicate above 2")
+        _need(b, r"fcntl\s*\(\s*tmp_handles\[i\]\s*,\s*F_SETFD\s*,\s*FD_CLOEXEC\s*\)", "duplicate is close-on-exec")
+        _need(b, r"src_handles\[i\]\s*=\s*tmp_handles\[i\]\s*;", "source replaced by the duplicate")
+        S = [r"src_handles\[0\]", r"src_handles\[1\]", r"src_handles\[2\]"]
+    else:
+        S = ["new_in", "new_out", "new_err"]
+    f["movesStdSources"] = moves
+    ws = r"\s*"
+    def dup2(a, n):
+        return r"posix_spawn_file_actions_adddup2\s*\(\s*&actions\s*,\s*%s\s*,\s*%d\s*\)\s*;" % (a, n)
+    def close(a):
+        return r"posix_spawn_file_actions_addclose\s*\(\s*&actions\s*,\s*%s\s*\)\s*;" % a
+    _need(posix, r"if\s*\(\s*pipe_in\s*!=\s*JANET_HANDLE_NONE\s*\)\s*\{\s*" + dup2("pipe_in", 0) + ws + close("pipe_in") + ws +
+          r"\}\s*else\s+if\s*\(\s*new_in\s*!=\s*JANET_HANDLE_NONE\s*&&\s*new_in\s*!=\s*0\s*\)\s*\{\s*" + dup2(S[0], 0) + ws +
+          r"if\s*\(\s*%s\s*!=\s*%s\s*&&\s*%s\s*!=\s*%s\s*\)\s*" % (S[0], S[1], S[0], S[2]) + close(S[0]) + ws + r"\}", "file actions for :in")
+    _need(posix, r"if\s*\(\s*pipe_out\s*!=\s*JANET_HANDLE_NONE\s*\)\s*\{\s*" + dup2("pipe_out", 1) + ws + close("pipe_out") + ws +
+          r"\}\s*else\s+if\s*\(\s*new_out\s*!=\s*JANET_HANDLE_NONE\s*&&\s*new_out\s*!=\s*1\s*\)\s*\{\s*" + dup2(S[1], 1) + ws +
+          r"if\s*\(\s*%s\s*!=\s*%s\s*\)\s*" % (S[1], S[2]) + close(S[1]) + ws + r"\}", "file actions for :out")
+    _need(posix, r"if\s*\(\s*pipe_err\s*!=\s*JANET_HANDLE_NONE\s*\)\s*\{\s*" + dup2("pipe_err", 2) + ws + close("pipe_err") + ws +
+          r"\}\s*else\s+if\s*\(\s*new_err\s*!=\s*JANET_HANDLE_NONE\s*&&\s*new_err\s*!=\s*2\s*\)\s*\{\s*" + dup2(S[2], 2) + ws + close(S[2]) + ws +
+          r"\}\s*else\s+if\s*\(\s*stderr_is_stdout\s*\)\s*\{\s*" + dup2("1", 2) + ws + r"\}", "file actions for :err")
+    _need(posix, r"if\s*\(\s*pipe_in\s*!=\s*JANET_HANDLE_NONE\s*\)\s*close\s*\(\s*pipe_in\s*\)\s*;\s*if\s*\(\s*pipe_out\s*!=\s*JANET_HANDLE_NONE\s*\)\s*close\s*\(\s*pipe_out\s*\)\s*;\s*"
+          r"if\s*\(\s*pipe_err\s*!=\s*JANET_HANDLE_NONE\s*\)\s*close\s*\(\s*pipe_err\s*\)\s*;", "the child's pipe ends are closed in the parent after posix_spawn")
+    _need(posix, r"if\s*\(\s*status\s*\)\s*\{.*?if\s*\(\s*pipe_owner_flags\s*&\s*JANET_PROC_OWNS_STDIN\s*\)\s*close\s*\(\s*new_in\s*\)\s*;\s*"
+          r"if\s*\(\s*pipe_owner_flags\s*&\s*JANET_PROC_OWNS_STDOUT\s*\)\s*close\s*\(\s*new_out\s*\)\s*;\s*"
+          r"if\s*\(\s*pipe_owner_flags\s*&\s*JANET_PROC_OWNS_STDERR\s*\)\s*close\s*\(\s*new_err\s*\)\s*;", "failed spawn closes our pipe ends")
+    _need(b, r"new_in\s*=\s*make_pipes\s*\(\s*&pipe_in\s*,\s*1\s*,\s*&pipe_errflag\s*\)\s*;\s*pipe_owner_flags\s*\|=\s*JANET_PROC_OWNS_STDIN", ":in :pipe -> make_pipes reverse")
+    _need(b, r"new_out\s*=\s*make_pipes\s*\(\s*&pipe_out\s*,\s*0\s*,\s*&pipe_errflag\s*\)\s*;\s*pipe_owner_flags\s*\|=\s*JANET_PROC_OWNS_STDOUT", ":out :pipe")
+    _need(b, r"new_err\s*=\s*make_pipes\s*\(\s*&pipe_err\s*,\s*0\s*,\s*&pipe_errflag\s*\)\s*;\s*pipe_owner_flags\s*\|=\s*JANET_PROC_OWNS_STDERR", ":err :pipe")
+    mp = _body(src, r"static\s+JanetHandle\s+make_pipes\s*\([^)]*\)\s*\{", "make_pipes")
+    _need(mp, r"janet_make_pipe\s*\(\s*handles\s*,\s*reverse\s*\?\s*2\s*:\s*1\s*\)\s*\)\s*goto\s+error\s*;\s*if\s*\(\s*reverse\s*\)\s*swap_handles\s*\(\s*handles\s*\)\s*;", "make_pipes: mode 2 / 1 + swap")
+    _need(mp, r"\*handle\s*=\s*handles\[1\]\s*;\s*return\s+handles\[0\]\s*;", "make_pipes: ours = handles[0], child's = handles[1]")
+    w = _body(src, r"os_proc_wait_impl\s*\(\s*JanetProc\s*\*\s*proc\s*\)\s*\{", "os_proc_wait_impl")
+    _need(w, r"if\s*\(\s*proc->flags\s*&\s*\(\s*JANET_PROC_WAITED\s*\|\s*JANET_PROC_WAITING\s*\)\s*\)\s*\{\s*janet_panicf\s*\(\s*\"cannot wait twice on a process\"", "wait once")
+    _need(w, r"proc->flags\s*\|=\s*JANET_PROC_WAITING\s*;", "WAITING set")
+    m = re.search(r"JANET_CORE_FN\s*\(\s*os_proc_close\s*,", src)
+    if not m:
+        raise ExtractError("os.c: os_proc_close not found")
+    i = src.index("{", src.index(")", src.index('"Close pipes', m.end())))
+    c = src[i:match_brace(src, i)]
+    _need(c, r"if\s*\(\s*proc->flags\s*&\s*JANET_PROC_OWNS_STDIN\s*\)\s*janet_stream_close\s*\(\s*proc->in\s*\)\s*;\s*"
+          r"if\s*\(\s*proc->flags\s*&\s*JANET_PROC_OWNS_STDOUT\s*\)\s*janet_stream_close\s*\(\s*proc->out\s*\)\s*;\s*"
+          r"if\s*\(\s*proc->flags\s*&\s*JANET_PROC_OWNS_STDERR\s*\)\s*janet_stream_close\s*\(\s*proc->err\s*\)\s*;", "proc-close closes the owned streams")
+    _need(c, r"proc->flags\s*&=\s*~\s*\(\s*JANET_PROC_OWNS_STDIN\s*\|\s*JANET_PROC_OWNS_STDOUT\s*\|\s*JANET_PROC_OWNS_STDERR\s*\)\s*;\s*"
+          r"if\s*\(\s*proc->flags\s*&\s*\(\s*JANET_PROC_WAITED\s*\|\s*JANET_PROC_WAITING\s*\)\s*\)\s*\{\s*return\s+janet_wrap_nil", "OWNS cleared; nil when waited / waiting")
+    return f
+
+
+def make_pipe_facts(tree):
+    ev = strip_comments(read(tree, "src/core/ev.c"))
+    b = _body(ev, r"int\s+janet_make_pipe\s*\(\s*JanetHandle\s+handles\[2\]\s*,\s*int\s+mode\s*\)\s*\{", "janet_make_pipe")
+    b = b[b.rindex("#else"):]
+    _need(b, r"if\s*\(\s*pipe\s*\(\s*handles\s*\)\s*\)\s*return\s+-1\s*;", "pipe()")
+    _need(b, r"if\s*\(\s*mode\s*!=\s*2\s*&&\s*fcntl\s*\(\s*handles\[0\]\s*,\s*F_SETFD\s*,\s*FD_CLOEXEC\s*\)\s*\)\s*goto\s+error\s*;", "read end close-on-exec unless mode 2")
+    _need(b, r"if\s*\(\s*mode\s*!=\s*1\s*&&\s*fcntl\s*\(\s*handles\[1\]\s*,\s*F_SETFD\s*,\s*FD_CLOEXEC\s*\)\s*\)\s*goto\s+error\s*;", "write end close-on-exec unless mode 1")
+    _need(b, r"if\s*\(\s*mode\s*!=\s*2\s*&&\s*mode\s*!=\s*3\s*&&\s*fcntl\s*\(\s*handles\[0\]\s*,\s*F_SETFL\s*,\s*O_NONBLOCK\s*\)\s*\)\s*goto\s+error\s*;", "read end non-blocking")
+    _need(b, r"if\s*\(\s*mode\s*!=\s*1\s*&&\s*mode\s*!=\s*3\s*&&\s*fcntl\s*\(\s*handles\[1\]\s*,\s*F_SETFL\s*,\s*O_NONBLOCK\s*\)\s*\)\s*goto\s+error\s*;", "write end non-blocking")
 
 
 def render(tree):
@@ -260,6 +349,9 @@ def render(tree):
     lines.append("")
     for n, v in f["flags"].items():
         lines.append("abbrev PROC_%s : Nat := %d" % (n, v))
+    lines.append("")
+    lines.append("/-- os_execute_impl passes redirection sources that are 0, 1 or 2 through a close-on-exec duplicate above 2 -/")
+    lines.append("abbrev movesStdSources : Bool := %s" % ("true" if f["movesStdSources"] else "false"))
     lines.append("")
     lines.append("end JanetModel.Gen.ProcStat")
     return "\n".join(lines) + "\n"
